@@ -182,8 +182,7 @@ func VerifC09Cleanup() {
 // existing != 0: the bucket holds t tokens; existing == 0: the client is new
 // (both first requests must share one bucket): admissions never exceed the
 // tokens available, under every interleaving.
-func VerifC09Concurrent(n int, existing int) {
-	max := 2
+func VerifC09Concurrent(n int, existing int, max int) {
 	rl := verifLimiter(max, time.Second)
 	t := max
 	if existing != 0 {
